@@ -142,8 +142,16 @@ func (f *failReader) Read(p []byte) (int, error) {
 type failSeekReader struct{ failReader }
 
 func (f *failSeekReader) Seek(off int64, whence int) (int64, error) {
-	if whence == io.SeekStart {
+	switch whence {
+	case io.SeekStart:
 		f.pos = int(off)
+	case io.SeekCurrent: // (the size detection gives its window back with a relative seek since e92fb84)
+		f.pos += int(off)
+	case io.SeekEnd:
+		f.pos = len(f.b) + int(off)
+	}
+	if f.pos < 0 {
+		f.pos = 0
 	}
 	return int64(f.pos), nil
 }
